@@ -15,11 +15,11 @@ Import ListNotations.
    exactly pyval_of c v - numbers, text, byte payloads, key/value association (a dict is the
    sequence of assignments made, in iteration order; PyVM.pd_merge gives the entries Python keeps
    under its key equality) and nesting.
-   The domain of pyval_of (hence `_partial`) leaves out what the proof does not cover yet: the
-   protocol-0 text forms of strings, floats (and Bytes / []byte, built from them at protocol 0),
-   payloads of 2^31 (Python-2 str) / 2^32 bytes or more; and what og-rek does not deliver: text that
-   is not valid UTF-8 written with a unicode opcode, a non-ASCII persistent id at protocol 0 (the
-   two recorded findings).  Outside the domain the property is decided on every run by loading the
+   The domain of pyval_of (hence `_partial`) leaves out: payloads of 2^31 (Python-2 str) / 2^32 bytes
+   or more in the counted forms; a protocol-0 float whose %g text (oracle) would not mean the same
+   bits; and what og-rek does not deliver: text that is not valid UTF-8 written with a unicode
+   opcode, a non-ASCII persistent id at protocol 0 (the two recorded findings).  Every protocol-0
+   text form is inside (S + pyquote, V + raw-unicode-escape, decimal INT / LONG, F + %g).  Outside the domain the property is decided on every run by loading the
    implementation's bytes with CPython and comparing with the documented value. *)
 Theorem C01_encode_loads_partial : forall c v x,
   (0 <= e_proto c <= 5)%Z -> pyval_of c v = Some x ->
